@@ -46,7 +46,8 @@ class Server(object):
                 # run, process, conn ...: attributes, but no requests
                 raise AttributeError('Unknown request: {}'.format(name))
             result = getattr(self, name)(*args, **kwargs)
-        except Exception as e:
+        except (Exception, SystemExit) as e:
+            # (code that calls sys.exit() ends its request, not the session)
             logger.exception('%s error', name)
             is_ok = False
             try:
